@@ -2761,6 +2761,7 @@ func runC19(c *Ctx) int {
 		c19RunCli(c, cliRun, paced, unlimited)
 	}()
 	c19ProbeBatches(c, run, cases)
+	c19ResolverUnreachable(c, run)
 	wg.Wait()
 	if c.Quick() {
 		c19RunCli(c, cliRun, paced, unlimited)
@@ -2840,4 +2841,58 @@ func c19Replay(c *Ctx, run *ev.Run) int {
 	run.Distinct("replay2")
 	run.Sample(cs)
 	return run.Finish()
+}
+
+
+// c19ResolverUnreachable: a -resolvers list none of whose servers can be reached (TCP to closed
+// loopback ports: refused at once) - a dial through the resolver returns an error; it does not
+// retry for ever. The probe runs in a process of its own; "never returns" is decided on CPU time
+// burnt (a spinning retry loop), a quiet timeout is inconclusive.
+func c19ResolverUnreachable(c *Ctx, run *ev.Run) {
+	dir, err := os.MkdirTemp("", "verif-c19-unreach-")
+	if err != nil {
+		run.Inconclusive(err.Error())
+		return
+	}
+	defer os.RemoveAll(dir)
+	in, out := filepath.Join(dir, "in"), filepath.Join(dir, "out")
+	_ = os.WriteFile(in, []byte(`{"op":"resolver","addrs":["127.0.0.1:1","127.0.0.1:2","[::1]:1"],"dials":4,"goroutines":1,"network":"tcp"}`+"\n"), 0o644)
+	ctx, cancel := context.WithTimeout(context.Background(), 40*time.Second)
+	defer cancel()
+	cmd := exec.CommandContext(ctx, c.Bin("probe.test"), "-test.run", "^TestVerifProbe$", "-test.count=1", "-test.timeout=0")
+	cmd.Env = append(os.Environ(), "VERIF_PROBE_IN="+in, "VERIF_PROBE_OUT="+out)
+	cmd.Dir = dir
+	_ = cmd.Run()
+	var cpu time.Duration
+	if cmd.ProcessState != nil {
+		cpu = cmd.ProcessState.UserTime() + cmd.ProcessState.SystemTime()
+	}
+	run.Eval(1)
+	if ctx.Err() != nil {
+		if cpu >= 15*time.Second {
+			run.Violate("C19/resolvers/dial-never-returns", fmt.Sprintf("-resolvers 127.0.0.1:1,127.0.0.1:2,[::1]:1 (nothing listens there): a TCP dial through the resolver did not return within 40 s and burnt %.0f s of CPU time (it retries for ever)", cpu.Seconds()),
+				map[string]any{"resolvers": []string{"127.0.0.1:1", "127.0.0.1:2", "[::1]:1"}, "network": "tcp", "cpu_seconds": cpu.Seconds()})
+		} else {
+			run.Inconclusive(fmt.Sprintf("resolver dial to unreachable servers hit the 40 s watchdog with only %.1f s of CPU time", cpu.Seconds()))
+		}
+		return
+	}
+	b, _ := os.ReadFile(out)
+	var a struct {
+		Dials []struct {
+			Err string `json:"err"`
+		} `json:"dials"`
+		Err string `json:"err"`
+	}
+	if json.Unmarshal(bytes.TrimSpace(b), &a) != nil || a.Err != "" || len(a.Dials) != 4 {
+		run.Inconclusive("resolver probe for unreachable servers gave no usable answer: " + tail(string(b), 200))
+		return
+	}
+	for _, d := range a.Dials {
+		if d.Err == "" {
+			run.Violate("C19/resolvers/unreachable-dial-succeeded", "a TCP dial through resolvers on closed ports reported success", map[string]any{"answer": string(b)})
+			return
+		}
+	}
+	run.Count("resolver_dials_to_unreachable_servers_that_returned_an_error", int64(len(a.Dials)))
 }
